@@ -4,7 +4,7 @@
    [Print Assumptions] beneath.  The models are instantiated with the literals
    the translator read from hilbert_curve.rs / z_curve.rs (Gen/SfcGen.v). *)
 From Coupe Require Import Lib.Prelude Lib.SFloat Lib.Sorting Model.SfcPart
-  Proofs.SortingProofs Proofs.SfcProofs Proofs.ZCurveProofs Proofs.ZCheckProofs Gen.SfcGen.
+  Proofs.SortingProofs Proofs.SfcProofs Proofs.ZCurveProofs Proofs.ZCheckProofs Proofs.ZOracleProofs Gen.SfcGen.
 From Coq Require Import Floats.SpecFloat Sorting.Permutation Sorting.Sorted.
 Open Scope nat_scope.
 
@@ -182,6 +182,20 @@ Print Assumptions C09_check_zparts_false.
 Theorem C09_sort_contract_inhabited : sort_contract sort_by_key.
 Proof. exact sort_by_key_contract. Qed.
 Print Assumptions C09_sort_contract_inhabited.
+
+(* the model asks the quadrant oracle about a point only along that point's own
+   path and above depth [order]: running it with the oracle rebuilt from the codes
+   the hook records = running it with the quadrant function that produced them *)
+Theorem C09_zcurve_codes_oracle : forall guard nq maxo q sorter order k n p0,
+  1 <= nq -> sort_contract sorter -> sorter_ext sorter ->
+  (forall path x, (q path x < N.of_nat nq)%N) ->
+  zcurve guard nq maxo q sorter order k n p0
+  = zcurve guard nq maxo (oracle_of_codes (map (zcode q order []) (seq 0 n))) sorter order k n p0.
+Proof. exact zcurve_codes_oracle. Qed.
+Theorem C09_sorter_ext_inhabited : sorter_ext sort_by_key.
+Proof. exact sort_by_key_ext. Qed.
+Print Assumptions C09_zcurve_codes_oracle.
+Print Assumptions C09_sorter_ext_inhabited.
 
 (* non-vacuity: six points in the 2-D quadrants 3,0,2,0,1,3 at depth 1, three
    parts: the run returns and each part is a run of the sorted order *)
